@@ -50,7 +50,7 @@ MUTANTS: List[Tuple[str, List[Tuple[str, str, str]], List[Tuple[str, str]]]] = [
     ('wk-g-oneof-none', [(M, "self._node_storage.exists_node_result(subgraph_node_id)  # noqa: B023\n                        and not isinstance(",
                            "self._node_storage.get_node_result(subgraph_node_id) is not None  # noqa: B023\n                        and not isinstance(")], [('C02', 'WK-g'), ('C10', 'WK-g')]),
     ('wk-h-notify-one', [(M, "condition.notify_all()", "condition.notify()")], [('C02', 'WK-h')]),
-    ('wk-k-event-not-set-on-recurrent', [(M, "                logger.debug('Skip unlocking the descendants of the node, node_id=%s', node_id)\n                self.__unlock_execution_lock(node_id)\n",
+    ('wk-k-event-not-set-on-recurrent', [(M, "                logger.debug('Skip unlocking the descendants of the node, node_id=%s', node_id)\n\n                if is_executor:\n                    self.__unlock_execution_lock(node_id)\n",
                                             "                logger.debug('Skip unlocking the descendants of the node, node_id=%s', node_id)\n")], [('C02', 'WK-k'), ('C04', 'WK-k')]),
     ('er5-unguarded-label', [(M, "        if not has_branch:\n            raise SwitchCaseDoesNotHaveBranchError(\n                f'The switch {switch_node_id} does not have a branch for the label {selected_branch_label!r}',\n            )\n\n", "")],
      [('C05', 'ER-5'), ('C09', 'ER-5'), ('C02', 'ER-5')]),
@@ -76,9 +76,9 @@ MUTANTS: List[Tuple[str, List[Tuple[str, str, str]], List[Tuple[str, str]]]] = [
     ('on4-event-before-publish', [(M, "            logger.debug('Save the result \"%s\" for the node %s', result, node_id)\n            self._node_storage.set_node_result(node_id, result)",
                                     "            self.__unlock_execution_lock(node_id)\n            self._node_storage.set_node_result(node_id, result)")], [('C04', 'ON-4')]),
     ('er1-cancelled-guard-dropped', [(M, "                coro_task.done()\n                and not coro_task.cancelled()\n                and isinstance(", "                coro_task.done()\n                and isinstance(")], [('C05', 'ER-1'), ('C13', 'ER-1')]),
-    ('er2-chart-base-exception', [(C, "        except Exception as ex:", "        except BaseException as ex:")], [('C05', 'ER-2'), ('C13', 'LK-5')]),
+    ('er2-chart-base-exception', [(C, "        except Exception as ex:\n            result = PipelineResult(", "        except BaseException as ex:\n            result = PipelineResult(")], [('C05', 'ER-2'), ('C13', 'LK-5')]),
     ('er2-chart-error-dropped', [(C, "value=None, error=ex)", "value=None, error=None)")], [('C05', 'ER-2')]),
-    ('er3-error-test-dropped', [(M, "        if error:\n            raise error\n", "")], [('C05', 'ER-3')]),
+    ('er3-error-test-dropped', [(M, "        if error is not None:\n            raise error\n", "")], [('C05', 'ER-3')]),
     ('er4-raise-keyerror', [(M, "            raise SwitchCaseDoesNotHaveBranchError(\n                f'The switch {switch_node_id} does not have a branch for the label {selected_branch_label!r}',\n            )", "            raise KeyError(selected_branch_label)")], [('C05', 'ER-4')]),
     ('er6-return-ex-always', [(M, "            if dag.is_oneof:\n                return ex\n\n            raise ex", "            return ex")], [('C05', 'ER-6'), ('C03', 'ER-6')]),
     ('cc1-await-task-in-loop', [(M, "            local_tasks.append(self._create_task(coro_to_run, name=node_id))", "            task = self._create_task(coro_to_run, name=node_id)\n            local_tasks.append(task)\n            await task")], [('C06', 'CC-1')]),
@@ -115,16 +115,16 @@ MUTANTS: List[Tuple[str, List[Tuple[str, str, str]], List[Tuple[str, str]]]] = [
     ('rt3-default-without-kwargs', [(M, "                    if node.use_default:\n                        return run_node_default(node, **kwargs)\n\n                    raise error", "                    if node.use_default:\n                        return run_node_default(node)\n\n                    raise error")], [('C12', 'RT-3')]),
     ('rt4-no-sleep', [(M, "                await asyncio.sleep(retry_policy.delay)", "                pass")], [('C12', 'RT-4')]),
     ('rt5-counter-from-zero', [(M, "        n_attempts = 1\n", "        n_attempts = 0\n")], [('C12', 'RT-5')]),
-    ('rt5-compare-gt', [(M, "                if n_attempts == retry_policy.attempts:", "                if n_attempts > retry_policy.attempts:")], [('C12', 'RT-5')]),
+    ('rt5-compare-gt', [(M, "                if n_attempts >= retry_policy.attempts:", "                if n_attempts > retry_policy.attempts:")], [('C12', 'RT-5')]),
     ('rt5-increment-twice', [(M, "                n_attempts += 1\n                await asyncio.sleep(retry_policy.delay)", "                n_attempts += 1\n                await asyncio.sleep(retry_policy.delay)\n                n_attempts += 1")], [('C12', 'RT-5')]),
-    ('rt5-increment-before-test', [(M, "                if n_attempts == retry_policy.attempts:\n", "                n_attempts += 1\n                if n_attempts == retry_policy.attempts:\n"),
+    ('rt5-increment-before-test', [(M, "                if n_attempts >= retry_policy.attempts:\n", "                n_attempts += 1\n                if n_attempts >= retry_policy.attempts:\n"),
                                    (M, "                n_attempts += 1\n                await asyncio.sleep(retry_policy.delay)", "                await asyncio.sleep(retry_policy.delay)")], [('C12', 'RT-5')]),
     ('rt5-count-from-zero', [(M, "        n_attempts = 1\n        while True:", "        for n_attempts in itertools.count():"),
                              (M, "                n_attempts += 1\n                await asyncio.sleep(retry_policy.delay)", "                await asyncio.sleep(retry_policy.delay)"),
                              (M, "import functools\n", "import functools\nimport itertools\n")], [('C12', 'RT-5')]),
     ('rt5-exhaustion-falls-through', [(M, "                    if node.use_default:\n                        return run_node_default(node, **kwargs)\n\n                    raise error\n\n                await self.ctx.emit_on_node_complete",
                                           "                    if node.use_default:\n                        return run_node_default(node, **kwargs)\n\n                await self.ctx.emit_on_node_complete")], [('C12', 'RT-5')]),
-    ('rt5-inverted-test', [(M, "                if n_attempts == retry_policy.attempts:", "                if n_attempts != retry_policy.attempts:")], [('C12', 'RT-5')]),
+    ('rt5-inverted-test', [(M, "                if n_attempts >= retry_policy.attempts:", "                if n_attempts < retry_policy.attempts:")], [('C12', 'RT-5')]),
     ('f25-case-filter-by-truthiness', [(M, "            return EdgeField.case_branch not in self.dag.graph.edges[u, v]\n", "            return not self.dag.graph.edges[u, v].get(EdgeField.case_branch)\n")], [('C09', 'SW-1')]),
     ('f26-unhashable-label-unhandled', [(M, "        try:\n            has_branch = selected_branch_label in branch_nodes\n        except TypeError:\n            # An unhashable label cannot match any case\n            has_branch = False\n", "        has_branch = selected_branch_label in branch_nodes\n")], [('C05', 'ER-5'), ('C09', 'ER-5')]),
     ('f23-additional-data-kept', [(M, "        self._additional_data.pop(start_from_node_id, None)\n", "        pass\n")], [('C11', 'RC-8')]),
@@ -152,7 +152,7 @@ MUTANTS: List[Tuple[str, List[Tuple[str, str, str]], List[Tuple[str, str]]]] = [
     ('vl5-generic-input-accepted', [(B, "            if isinstance(annotation, (InputGenericMark, GenericInputMark)):", "            if isinstance(annotation, InputGenericMark):")], [('C16', 'VL-5')]),
     ('ex1-validation-after-manager', [(D, "        self._start_runtime_validation()\n\n        run_manager = self.run_manager(dag=self, ctx=ctx)", "        run_manager = self.run_manager(dag=self, ctx=ctx)")], [('C17', 'EX-1')]),
     ('ex2-tuple-order-swapped', [(B, "        return is_process_pool_needed, is_thread_pool_needed", "        return is_thread_pool_needed, is_process_pool_needed")], [('C17', 'EX-2')]),
-    ('ex4-shutdown-ignored', [(TH, "        if not self._pool_executor or self._pool_executor._shutdown:", "        if not self._pool_executor:")], [('C17', 'EX-4')]),
+    ('ex4-shutdown-ignored', [(TH, "        if not self._pool_executor or self._pool_executor._shutdown or self._pool_executor._broken:", "        if not self._pool_executor:")], [('C17', 'EX-4')]),
     ('ex5-kwargs-dropped-in-executor', [(N, "functools.partial(_run_in_executor, run_method, *args, **kwargs),", "functools.partial(_run_in_executor, run_method, *args),")], [('C17', 'EX-5')]),
     ('fs1-always-binary', [(F, "        mode, encoding = ('wb', None) if serializer.is_binary else ('w', 'utf-8')", "        mode, encoding = ('wb', None)")], [('C18', 'FS-1')]),
     ('fs2-no-rollback', [(F, "            path.unlink(missing_ok=True)\n", "")], [('C18', 'FS-2')]),
@@ -192,7 +192,7 @@ MUTANTS: List[Tuple[str, List[Tuple[str, str, str]], List[Tuple[str, str]]]] = [
     ('f44-exempt-by-name', [(B, "            if parameter.kind not in (parameter.VAR_POSITIONAL, parameter.VAR_KEYWORD)\n", "            if name not in ('self', 'args', 'kwargs')\n")], [('C16', 'VL-7')]),
     ('f45-non-async-demands-pool', [(B, "            if NodeTag.non_async in tags:\n                continue\n\n", "")], [('C17', 'EX-7')]),
     ('f46-same-node-empty-graph', [(B, "            self._dag.add_node(get_node_id(output_node))\n", "")], [('C15', 'BD-9')]),
-    ('f47-one-level-unwrap', [(V, "        while getattr(node, '__generic_class__', None) is not None:\n", "        if getattr(node, '__generic_class__', None) is not None:\n")], [('C20', 'VW-7')]),
+    ('f47-one-level-unwrap', [(V, "        while vars(node).get('__generic_class__') is not None:\n", "        if vars(node).get('__generic_class__') is not None:\n")], [('C20', 'VW-7')]),
     ('f48-wrapper-keeps-own-name', [(N, "    class_method.__name__ = 'process'\n", "")], [('C17', 'BN-1')]),
     ('f49-wrapper-without-doc', [(N, "    class_method.__doc__ = process_method.__doc__\n", "")], [('C20', 'BN-2')]),
     ('f50-registry-is-a-set', [(M, "    _coro_tasks: t.List[asyncio.Task] = field(default_factory=list)", "    _coro_tasks: t.Set[asyncio.Task] = field(default_factory=set)"),
@@ -233,9 +233,9 @@ BENIGN: List[Tuple[str, List[Tuple[str, str, str, bool]]]] = [
                           (M, "                n_attempts += 1\n                await asyncio.sleep(retry_policy.delay)", "                await asyncio.sleep(retry_policy.delay)", False),
                           (M, "import functools\n", "import functools\nimport itertools\n", False)]),
     ('retry-shifted-counter', [(M, "        n_attempts = 1\n        while True:", "        n_attempts = 0\n        while True:", False),
-                               (M, "                if n_attempts == retry_policy.attempts:\n", "                n_attempts += 1\n                if n_attempts >= retry_policy.attempts:\n", False),
+                               (M, "                if n_attempts >= retry_policy.attempts:\n", "                n_attempts += 1\n                if n_attempts >= retry_policy.attempts:\n", False),
                                (M, "                n_attempts += 1\n                await asyncio.sleep(retry_policy.delay)", "                await asyncio.sleep(retry_policy.delay)", False)]),
-    ('retry-attempts-left-test', [(M, "                if n_attempts == retry_policy.attempts:\n\n                    if node.use_default:\n                        return run_node_default(node, **kwargs)\n\n                    raise error\n\n                await self.ctx.emit_on_node_complete(node_id=node_id, error=error)\n\n                n_attempts += 1\n                await asyncio.sleep(retry_policy.delay)\n",
+    ('retry-attempts-left-test', [(M, "                if n_attempts >= retry_policy.attempts:\n\n                    if node.use_default:\n                        return run_node_default(node, **kwargs)\n\n                    raise error\n\n                await self.ctx.emit_on_node_complete(node_id=node_id, error=error)\n\n                n_attempts += 1\n                await asyncio.sleep(retry_policy.delay)\n",
                                      "                if n_attempts < retry_policy.attempts:\n                    await self.ctx.emit_on_node_complete(node_id=node_id, error=error)\n                    n_attempts += 1\n                    await asyncio.sleep(retry_policy.delay)\n                    continue\n\n                if node.use_default:\n                    return run_node_default(node, **kwargs)\n\n                raise error\n", False)]),
     ('rename-unlock-descendants', [(M, '__unlock_descendants', '__notify_children', True)]),
     ('rename-run-node', [(M, '_run_node', '_run_single_node', True)]),
@@ -259,7 +259,7 @@ BENIGN: List[Tuple[str, List[Tuple[str, str, str, bool]]]] = [
     ('storage-rename-exists', [(S, 'exists_node_result', 'has_node_result', True), (M, 'exists_node_result', 'has_node_result', True)]),
     ('chart-rename-exception-var', [(C, "        except Exception as ex:\n            result = PipelineResult(pipeline_id=pipeline_id, value=None, error=ex)", "        except Exception as error:\n            result = PipelineResult(pipeline_id=pipeline_id, value=None, error=error)", False)]),
     ('stop-tasks-done-only', [(M, "            if coro_task.done() or coro_task.cancelled():\n                continue", "            if coro_task.done():\n                continue", False)]),
-    ('attempts-greater-equal', [(M, "                if n_attempts == retry_policy.attempts:", "                if n_attempts >= retry_policy.attempts:", False)]),
+    ('attempts-not-less', [(M, "                if n_attempts >= retry_policy.attempts:", "                if not n_attempts < retry_policy.attempts:", False)]),
     ('filesystem-rename-lookup', [(F, '_get_glob', '_find_artifacts', True)]),
     ('manager-rename-storage-field', [(M, '_node_storage', '_results', True)]),
     ('outline-publish', [(M, "            logger.debug('Save the result \"%s\" for the node %s', result, node_id)\n            self._node_storage.set_node_result(node_id, result)\n", "            self._publish(node_id, result)\n", False),
@@ -288,7 +288,7 @@ BENIGN: List[Tuple[str, List[Tuple[str, str, str, bool]]]] = [
     ('class-check-inlined-in-registration', [(B, "        self._check_base_class(node)\n        self._node_map[get_node_id(node)] = node", "        if not inspect.isclass(node):\n            raise errors.IncorrectTypeClass(f'{node} должен быть классом')\n        self._check_base_class(node)\n        self._node_map[get_node_id(node)] = node", False)]),
     ('registry-deque', [(M, "    _coro_tasks: t.List[asyncio.Task] = field(default_factory=list)", "    _coro_tasks: t.Deque[asyncio.Task] = field(default_factory=deque)", False),
                         (M, "import asyncio\n", "import asyncio\nfrom collections import deque\n", False)]),
-    ('unwrap-generic-chain-recursively', [(V, "        while getattr(node, '__generic_class__', None) is not None:\n            node = node.__generic_class__\n\n        file_path", "        generic_class = getattr(node, '__generic_class__', None)\n        if generic_class is not None:\n            return GraphConfigImpl._get_node_relative_path(generic_class)\n\n        file_path", False)]),
+    ('unwrap-generic-chain-recursively', [(V, "        while vars(node).get('__generic_class__') is not None:\n            node = node.__generic_class__\n\n        file_path", "        generic_class = vars(node).get('__generic_class__')\n        if generic_class is not None:\n            return GraphConfigImpl._get_node_relative_path(generic_class)\n\n        file_path", False)]),
 ]
 
 
@@ -346,6 +346,32 @@ REPAIRS: List[Tuple[str, List[Tuple[str, str, str]], List[Tuple[str, str, str]]]
     ('repair-cc9-ancestors-descendants', [(G, "    subgraph: DiGraph = dag.subgraph({node_id for path in nx.all_simple_paths(dag, source, dest) for node_id in path})",
                                            "    subgraph: DiGraph = dag.subgraph((nx.descendants(dag, source) | {source}) & (nx.ancestors(dag, dest) | {dest}))")],
      [('C06', 'CC-9', 'path enumeration')]),
+    # ---- third hunt (DESIGN 9.14)
+    ('repair-er10-done-callback', [(M, "        task = asyncio.create_task(coro, name=name)\n", "        task = asyncio.create_task(coro, name=name)\n        task.add_done_callback(self._wake_run_when_failed)\n"),
+                                   (M, "    async def run(self) -> NodeResultT:", "    def _wake_run_when_failed(self, task: asyncio.Task) -> None:\n        if not task.cancelled() and task.exception() is not None:\n            asyncio.ensure_future(self._lock_manager.unlock_condition(self._alias_run_method))\n\n    async def run(self) -> NodeResultT:")],
+     [('C02', 'ER-10', 'dead task wakes run')]),
+    ('repair-vl11-start-node-validated', [(B, "            method = get_callable_run_method(self._node_map[source])\n", "            if source not in self._node_map or dest not in nx.descendants(self._dag, source):\n                raise errors.IncorrectParamsRecurrentNode(f'{source} is not an ancestor of {dest}')\n\n            method = get_callable_run_method(self._node_map[source])\n"),
+                                          (B, "import typing as t\n", "import typing as t\n\nimport networkx as nx\n")],
+     [('C16', 'VL-11', 'recurrent start')]),
+    ('repair-rc10-handover-per-subgraph', [(M, "            self._additional_data[start_from_node_id] = node_result.data", "            self._additional_data[(start_from_node_id, node_id)] = node_result.data")],
+     [('C11', 'RC-10', 'hand-over keyed by the subgraph')]),
+    ('repair-bd14-conflicting-recurrent-declarations', [(B, "                    self._check_base_class(input_mark.start_node)\n                    self._add_node_to_map(input_mark.dest_node)\n",
+                                                         "                    self._check_base_class(input_mark.start_node)\n                    self._add_node_to_map(input_mark.dest_node)\n                    declared = self._dag.nodes.get(get_node_id(input_mark.dest_node), {})\n                    if declared.get(NodeField.start_node, get_node_id(input_mark.start_node)) != get_node_id(input_mark.start_node):\n                        raise ValueError('conflicting recurrent declarations')\n")],
+     [('C15', 'BD-14', 'recurrent settings per declaration')]),
+    ('repair-bd16-input-node-without-marks', [(B, "        self._add_node_to_map(input_node)\n\n        if output_node is None:", "        self._add_node_to_map(input_node)\n\n        if output_node is not None and self._get_input_marks_map(input_node):\n            raise ValueError('the input node must not have dependencies of its own')\n\n        if output_node is None:")],
+     [('C15', 'BD-16', 'acyclic')]),
+    ('repair-ev7-complete-on-every-exit', [(C, "        except Exception as ex:\n            result = PipelineResult(pipeline_id=pipeline_id, value=None, error=ex)\n            await ctx.emit_on_pipeline_complete(result=result)\n\n            return result",
+                                            "        except Exception as ex:\n            result = PipelineResult(pipeline_id=pipeline_id, value=None, error=ex)\n            await ctx.emit_on_pipeline_complete(result=result)\n\n            return result\n\n        except BaseException as ex:\n            await ctx.emit_on_pipeline_complete(result=PipelineResult(pipeline_id=pipeline_id, value=None, error=ex))\n            raise")],
+     [('C14', 'EV-7', 'complete on every exit')]),
+    ('repair-fs8-exclusive-atomic-save', [(F, "        mode, encoding = ('wb', None) if serializer.is_binary else ('w', 'utf-8')\n\n        path = Path(self._ensure_dir() / f'{node_id}.{fmt.value}')\n",
+                                           "        mode, encoding = ('xb', None) if serializer.is_binary else ('x', 'utf-8')\n\n        final_path = Path(self._ensure_dir() / f'{node_id}.{fmt.value}')\n        path = final_path.with_name(final_path.name + '.tmp')\n"),
+                                          (F, "            path.unlink(missing_ok=True)\n            raise\n", "            path.unlink(missing_ok=True)\n            raise\n\n        path.link_to(final_path) if hasattr(path, 'link_to') else path.rename(final_path)\n")],
+     [('C18', 'FS-8', 'exclusive create'), ('C18', 'FS-8', 'atomic publish')]),
+    ('repair-bn5-default-wrapper', [(N, "            '__generic_class__': node,\n", "            '__generic_class__': node,\n            'get_default': lambda self, **kwargs: node.get_default(self, **kwargs, **(dependencies_default or {})),\n")],
+     [('C12', 'BN-5', 'default kwargs')]),
+    ('repair-vl12-stub-is-not-a-run-method', [(N, "    if not callable(getattr(node, 'process', None)):\n        raise RunMethodExpectedError('Missing method for node execution')\n\n    node = get_instance(node)",
+                                               "    if not callable(getattr(node, 'process', None)) or getattr(node.process, '__qualname__', '').startswith('ProcessorBase.'):\n        raise RunMethodExpectedError('Missing method for node execution')\n\n    node = get_instance(node)")],
+     [('C16', 'VL-12', 'stub is not a run method')]),
 ]
 
 
